@@ -244,6 +244,20 @@ fn run_doc(root: &Path, k: usize, ext: &str, text: &str, probes: &[Val], files: 
                 std::fs::write(&real, &t).unwrap();
                 std::os::unix::fs::symlink(&real, &cfgp).unwrap();
             }
+            5 if tag == "a" => {
+                // the configured path is a named pipe (a generated configuration, a secrets mount): the document
+                // is what can be READ from the path, whatever size the file system reports for it
+                use std::os::unix::ffi::OsStrExt;
+                let cpath = std::ffi::CString::new(cfgp.as_os_str().as_bytes()).unwrap();
+                assert_eq!(unsafe { libc::mkfifo(cpath.as_ptr(), 0o600) }, 0, "mkfifo");
+                let (p2, t2) = (cfgp.clone(), t.clone());
+                std::thread::spawn(move || {
+                    use std::io::Write as _;
+                    if let Ok(mut f) = std::fs::OpenOptions::new().write(true).open(&p2) {
+                        let _ = f.write_all(t2.as_bytes());
+                    }
+                });
+            }
             _ => std::fs::write(&cfgp, &t).unwrap(),
         }
         (dir, cfgp, t)
